@@ -4,6 +4,7 @@ use crate::c01::{padded_dec, padded_enc};
 use crate::ctx::*;
 use crate::ensure;
 use crate::fe::*;
+use crate::rec;
 use crate::util::*;
 use base::api::*;
 use base::json::J;
@@ -195,7 +196,51 @@ pub fn run(ctx: &Ctx) -> Outcome {
         }
         rep.finish()
     });
+    // keystream cores: the consuming partial call (try_apply_keystream_partial) in place vs the two-buffer forms
+    let core_units: Vec<(&Cfg, &CoreDesc)> = cfgs.iter().flat_map(|c| c.cores.iter().map(move |d| (*c, d))).collect();
+    let rp = par_map(&core_units, |(cfg, d)| {
+        let mut rep = Report::new(format!("{}/{}/partial", cfg.name, d.mode));
+        let bs = cfg.bs;
+        let par = par_of(cfg);
+        let key = &keys(seed, cfg.key_len)[0];
+        let iv = pattern(seed, 0x1717, bs);
+        let mut lens = vec![0usize, 1, bs - 1 + (bs == 1) as usize, bs, bs + 1, 2 * bs + bs / 2 + 1, (par + 1) * bs + bs / 2 + 1];
+        lens.sort();
+        lens.dedup();
+        let lmax = *lens.last().unwrap();
+        let data = pattern(seed, 0xC12F, lmax);
+        for &l in &lens {
+            for start in [0u128, 5] {
+                let m = &data[..l];
+                let run = |k: Kind, pre: &[u8]| -> Result<(Vec<u8>, bool), Fail> {
+                    let mut core = rec::core(cfg, d, key, &iv);
+                    if start != 0 && d.seekable {
+                        ensure!(core.set_block_pos(start), "MACHINERY", "harness: position fits");
+                    }
+                    let mut out = if k.in_place() { m.to_vec() } else { pre.to_vec() };
+                    let r = core.partial(k, m, &mut out);
+                    Ok((out, r.is_ok()))
+                };
+                let Ok(Ok(base)) = std::panic::catch_unwind(std::panic::AssertUnwindSafe(|| run(Kind::InPlace, &[]))) else {
+                    rep.case(|| run(Kind::InPlace, &[]).map(|_| ()));
+                    continue;
+                };
+                rep.outcome(&base.0);
+                for k in [Kind::B2b, Kind::InOut, Kind::Alias] {
+                    for (pn, pre) in prefills(seed, m, &base.0) {
+                        rep.case(|| {
+                            let got = run(k, &pre)?;
+                            ensure!(got == base, format!("bytes_differ/{}/partial", d.mode), "{} try_apply_keystream_partial of {} bytes from block {} ({}; output pre-filled with {}): {} but in place {}", d.ty, l, start, k.s(), pn, short(&got.0), short(&base.0));
+                            Ok(())
+                        });
+                    }
+                }
+            }
+        }
+        rep.finish()
+    });
     let mut o = merge(r1);
+    extend(&mut o, merge(rp));
     extend(&mut o, merge(r2));
     extend(&mut o, merge(r3));
     o.rule = "stateless exhaustive: every operation offered both in place and buffer-to-buffer / inout (block-level calls, one-shots, keystream application at core and byte level, write_keystream into a dirty buffer, ciphertext stealing, padded forms) x configuration x direction x IV x data x length x split shape (whole, one cut) x output pre-fill in {zeros, 0xFF, copy of input, complement of input, pattern, expected output}; oracle: bytes and exported chaining state identical to the in-place run".into();
